@@ -38,14 +38,19 @@ P('C01', claimed=True, needs_driver=True, level='other',
               'both operands being one object and any number of readers: either nothing at all happens, or '
               'exactly one operand whose only reader is the unit itself is removed and exactly one new unit is '
               'made whose denotation equals the replaced unit\'s (ghost denotation over the reals), which does '
-              'not read the removed unit, inherits the readers and has the reader sets updated. Bounded: the '
-              'optimiser as a whole (dead-code elimination, the order rewrites are tried in, topological sort) - '
+              'not read the removed unit, inherits the readers and has the reader sets updated; dead-code '
+              'elimination (SynthObject._perform_dead_code_elimination): a unit with readers is left completely '
+              'alone; an unread unit leaves the reader set of each input that is a unit with readers (only that '
+              'set, only itself), the input is re-optimised iff it is still the unit registered at its index, '
+              'and the unit itself is removed last, once. Bounded: the optimiser as a whole (the order rewrites '
+              'are tried in, reader-set bookkeeping, topological sort) - '
               'every generated graph program is compiled, its bytes parsed by an independent SCgf reader and its '
               'denotation compared with the source expression modulo the ring identities of the statement.'),
   level_note=('In the rewrite contracts rate lookups and MulAdd._can_be_muladd are ghost booleans, '
               'SynthDef._remove_ugen/_replace_ugen and _optimize_update_descendants ghost events, the meaning of '
-              'the units the constructors build is taken from their own proved contracts. Dead-code elimination, '
-              'the reader-set bookkeeping and the sort mutate object graphs through sets: bounded only (exhaustive '
+              'the units the constructors build is taken from their own proved contracts; reader sets are opaque '
+              'objects with a ghost truth value. The reader-set bookkeeping and the sort mutate object graphs '
+              'through sets: bounded only (exhaustive '
               'small DAGs + seeded random). Trusted: the independent SCgf-2 reader and denotation normal form '
               '(oracles), Opcodes.h numbering.'),
   unreached=['acceptance by a real scsynth'])
